@@ -205,7 +205,7 @@ def generate(prop, rng, tier):
             m = meshes[mk]
             kind = rng.choice(["n", "e"])
             pool = sorted({n for _, nodes in m["elements"] for n in nodes}) if kind == "n" else sorted(e for e, _ in m["elements"])
-            k = rng.randint(1, len(pool))
+            k = rng.randint(1, len(pool)) if rng.random() > 0.04 else 0       # now and then an empty set
             idl = rng.sample(pool, k)
             if rng.random() < 0.5:
                 idl.sort()
@@ -357,7 +357,7 @@ def call_real(exp, op, meshes):
         if kind == "add_geometry":
             exp.add_geometry(op["geom"], fr.get(op["mesh"], mesh, op.get("sabotage")))
         elif kind == "add_set":
-            ids = pd.Index([int(i) for i in op["ids"]])
+            ids = pd.Index([int(i) for i in op["ids"]], dtype="int64")
             f = exp.add_node_set if op["kind"] == "n" else exp.add_element_set
             f(op["geom"], ids, fr.get(op["mesh"], mesh), op["name"])
         elif kind == "add_variable":
